@@ -68,3 +68,53 @@ Section BucketJoint.
   Definition rs_joint (rs : list resampler) : list (list (Z * Z)) := map (rs_indices (map rs_task rs)) rs.
 End BucketJoint.
 Arguments mk_rs {T}. Arguments rs_area {T}. Arguments rs_key {T}. Arguments rs_proj {T}.
+
+(* ---------------------------------------------------------------- histories of calls on the caller's arrays.
+   A call takes the caller's state (the lon/lat arrays it passes, shared between calls) and returns its output and the
+   state it leaves behind.  [run] threads the state through a list of calls, as a program calling module after module
+   on the same arrays / the same SwathDefinition does. *)
+Section History.
+  Context {S Out : Type}.
+  Definition call := S -> Out * S.
+  Definition read_only (c : call) : Prop := forall s, snd (c s) = s.
+  Fixpoint run_history (h : list call) (s : S) : list Out :=
+    match h with nil => nil | c :: r => fst (c s) :: run_history r (snd (c s)) end.
+End History.
+
+(* the five modules as calls on a shared array of points (PROJ applied element-wise by [proj]); what they return is the
+   per-point result, the arrays are handed back untouched (ll2cr works on the copy made by astype(copy=True)) *)
+Section ModuleCalls.
+  Context {T : Type} (OP : ops T).
+  Variable proj : T * T -> T * T.
+  Inductive out :=
+  | OCells (l : list (option (Z * Z)))
+  | OIdx (l : list (Z * Z))
+  | OColRow (l : list (T * T * bool)).
+  Definition on_proj {B} (f : T -> T -> B) (p : T * T) : B := let q := proj p in f (fst q) (snd q).
+  Definition call_area (a : area T) : call (S := list (T * T)) := fun s => (OCells (map (on_proj (area_cell OP a)) s), s).
+  Definition call_grid (a : area T) : call (S := list (T * T)) := fun s => (OCells (map (on_proj (grid_cell OP a)) s), s).
+  Definition call_gf (a : area T) : call (S := list (T * T)) := fun s => (OCells (map (on_proj (gf_cell OP a)) s), s).
+  Definition call_bucket (a : area T) : call (S := list (T * T)) := fun s => (OIdx (map (on_proj (bk_xy OP a)) s), s).
+  Definition call_ll2cr (a : area T) (fill : T) : call (S := list (T * T)) :=
+    fun s => (OColRow (map (on_proj (ll2cr_point OP a fill)) s), s).
+  (* ll2cr WITHOUT the copy (copy=False, or a conversion that does not copy): col / row are written into the caller's arrays *)
+  Definition call_ll2cr_inplace (a : area T) (fill : T) : call (S := list (T * T)) :=
+    fun s => let r := map (on_proj (ll2cr_point OP a fill)) s in (OColRow r, map (fun q => (fst (fst q), snd (fst q))) r).
+  Definition is_module_call (c : call (S := list (T * T))) : Prop :=
+    exists a, c = call_area a \/ c = call_grid a \/ c = call_gf a \/ c = call_bucket a \/ exists fill, c = call_ll2cr a fill.
+End ModuleCalls.
+
+(* ---------------------------------------------------------------- memory layout.  A 2-D array is its list of rows (logical
+   content); an element-wise routine that flattens, works on the flat buffer and reshapes (Proj_MP: shared-memory buffers,
+   worker processes, reshape(grid_shape)) must flatten in the same (C) order it reshapes in. *)
+Section Layout.
+  Context {A B : Type}.
+  Definition ravel_C (m : list (list A)) : list A := concat m.
+  Fixpoint reshape_C (rows w : nat) (l : list B) : list (list B) :=
+    match rows with O => nil | S k => firstn w l :: reshape_C k w (skipn w l) end.
+  Definition flat_apply (f : A -> B) (flatten : list (list A) -> list A) (w : nat) (m : list (list A)) : list (list B) :=
+    reshape_C (length m) w (map f (flatten m)).
+End Layout.
+(* memory order of a Fortran-ordered array = C order of its transpose: ravel(order='K') walks the columns *)
+Fixpoint ravel_F {A} (w : nat) (m : list (list A)) : list A :=
+  match w with O => nil | S k => flat_map (fun r => firstn 1 r) m ++ ravel_F k (map (skipn 1) m) end.
